@@ -23,4 +23,5 @@ package p2p
 //@ func rlpxFrameRW.ReadMsg
 //@   requires rw != nil && rw.dec != nil && rw.ingressMAC != nil && rw.macCipher != nil && rw.conn != nil
 //@   allocbound[C17] $n <= 16777216
+//@   ensures[C17] @sizelimit err == nil && rw.snappy ==> msg.Size <= 16777215
 //@   nopanic[C17]
